@@ -169,6 +169,7 @@ def hash_str(s):
 
 
 def replay(fam, path):
+    build(targets=[t for t in fam.targets])          # the model must reflect the current source (Generated.v)
     d = json.loads(Path(path).read_text())
     case = d['case'] if 'case' in d else d
     recs, merr, ierr = evaluate(fam, [case])
